@@ -875,7 +875,7 @@ def rule_N7(ctx, rule: str = "N7") -> None:
             ctx.inconclusive(rule, "decode_varint:position", f"scan not of the form `b = {buf}[{pos}]; {pos} += 1` once per iteration with `return value, {pos}`", mod.loc(dv))
     # (d) raw covers the value
     first = lv.args.args[1].arg if len(lv.args.args) > 1 else None
-    paths = Interp(mod, fork_ifexp=True, fork_while=True).run(lv)
+    paths = Interp(mod, fork_ifexp=True, fork_while=True, replay_logs=True).run(lv)
     ctx.count(len(paths))
     missing = None
     recomputed = None
